@@ -596,6 +596,7 @@ func checkC01(c *Ctx) {
 	checkNilBelief(c, "C01.nil-belief")
 	checkNilFuncCall(c)
 	checkMacroBudget(c)
+	checkPairedNil(c, "C01.paired-nil")
 	checkSourcePos(c)
 }
 
@@ -1205,6 +1206,36 @@ func checkC01Input(c *Ctx) {
 				if isLenCall(rel.X) {
 					if kk, ok := constInt(rel.Y); ok && ((rel.Op == token.GTR && kk >= 0) || (rel.Op == token.NEQ && kk == 0) || (rel.Op == token.GEQ && kk >= 1)) {
 						guarded = true
+					}
+				}
+			}
+			// an index that walks down from len-k (k >= 1) and is tested non-negative is in range as well
+			if ph, isPhi := ia.Index.(*ssa.Phi); isPhi && !guarded {
+				down := len(ph.Edges) > 0
+				for _, e := range ph.Edges {
+					bo, isBo := e.(*ssa.BinOp)
+					if !isBo || bo.Op != token.SUB {
+						down = false
+						break
+					}
+					if kk, isK := constInt(bo.Y); !isK || kk < 1 {
+						down = false
+						break
+					}
+					if !(bo.X == ssa.Value(ph) || (isLenCall(bo.X) && sameValue(bo.X.(*ssa.Call).Call.Args[0], ia.X))) {
+						down = false
+						break
+					}
+				}
+				if down {
+					for fc := range factsAt(bf, in) {
+						rel, ok := relOf(fc.Cond, fc.Val)
+						if !ok || rel.X != ssa.Value(ph) {
+							continue
+						}
+						if kk, ok := constInt(rel.Y); ok && ((rel.Op == token.GEQ && kk >= 0) || (rel.Op == token.GTR && kk >= -1)) {
+							guarded = true
+						}
 					}
 				}
 			}
